@@ -275,6 +275,7 @@ def run(ctx):
     impl = h.run(cases)
     model = coqbuild.run_model(mlines)
     ctx.log(f"implementation answered {len(impl)}, model answered {len(model)}")
+    ctx.vm_crosscheck(mlines, model)
 
     bad_impl, bad_model = [], []
     steps = 0
